@@ -1759,3 +1759,118 @@ def _(it, a, info):
     x = _peel(a[0])
     c = struct_cmp(it, a[0], a[1]) if isinstance(x, (Agg, Enum)) and not is_std_value(x) else compare(it, a[0], a[1])
     return none() if c is None else some(ordering(c))
+
+# ---- small integer types get the same checked / wrapping / saturating family as the wide ones
+def _arith_family(n):
+    bits, signed = INT_TYS[n]
+    def chk(it, a, info):
+        op = {'checked_add': 'AddWithOverflow', 'checked_sub': 'SubWithOverflow', 'checked_mul': 'MulWithOverflow'}[info['method']]
+        r = do_binop(op, a[0], a[1], n); return none() if truth(it, r.f[1]) else some(r.f[0])
+    def wrp(it, a, info):
+        return do_binop({'wrapping_add': 'Add', 'wrapping_sub': 'Sub', 'wrapping_mul': 'Mul'}[info['method']], a[0], a[1], n)
+    def sat(it, a, info):
+        m = info['method']; r = do_binop({'saturating_add': 'AddWithOverflow', 'saturating_sub': 'SubWithOverflow'}[m], a[0], a[1], n)
+        if not truth(it, r.f[1]): return r.f[0]
+        lo, hi = int_range(n)
+        if not signed: return lo if m == 'saturating_sub' else hi
+        neg_b = truth(it, do_binop('Lt', a[1], 0, n))
+        return (lo if neg_b else hi) if m == 'saturating_add' else (hi if neg_b else lo)
+    def shl(it, a, info):
+        m = info['method']; x, k = a[0], a[1]
+        if is_sym(x) or is_sym(k): raise Unsupported('symbolic shift method')
+        if m.startswith('checked') and k >= bits: return none()
+        k %= bits; u = x & ((1 << bits) - 1)
+        if 'shl' in m: r = wrap_int(u << k, (bits, signed))
+        else: r = (x >> k) if signed else (u >> k)
+        return some(r) if m.startswith('checked') else r
+    def rot(it, a, info):
+        x, k = a[0], a[1]
+        if is_sym(x) or is_sym(k): raise Unsupported('symbolic rotate')
+        k %= bits; u = x & ((1 << bits) - 1)
+        if info['method'] == 'rotate_right': k = (bits - k) % bits
+        return wrap_int(((u << k) | (u >> (bits - k))) & ((1 << bits) - 1), (bits, signed))
+    for m_ in ('checked_add', 'checked_sub', 'checked_mul'): model(n + '::' + m_)(chk)
+    for m_ in ('wrapping_add', 'wrapping_sub', 'wrapping_mul'): model(n + '::' + m_)(wrp)
+    for m_ in ('saturating_add', 'saturating_sub'): model(n + '::' + m_)(sat)
+    for m_ in ('checked_shl', 'checked_shr', 'wrapping_shl', 'wrapping_shr'): model(n + '::' + m_)(shl)
+    for m_ in ('rotate_left', 'rotate_right'): model(n + '::' + m_)(rot)
+for _n in INT_TYS: _arith_family(_n)
+@model('slice::split_at_mut', 'slice::split_at')
+def _(it, a, info):
+    base, lo, hi = seqview(it, a[0]); m = a[1]
+    if m > hi - lo: raise RustPanic('mid > len')
+    return Agg('tuple', [SliceRef(base, lo, lo + m), SliceRef(base, lo + m, hi)])
+_old_tryinto = MODELS['TryInto::try_into']
+@model('TryInto::try_into')
+def _(it, a, info):
+    if is_scalar(a[0]): return _old_tryinto(it, a, info)
+    tr = parse_ty(info.get('trait') or ''); dst = show_ty(tr[3][0]) if tr[0] == 'path' and tr[3] else None
+    return it.call_named('<%s as TryFrom<%s>>::try_from' % (dst, info.get('self_ty')), [a[0]], [info.get('self_ty')], None)
+
+_old_from = MODELS['From::from']
+@model('From::from')
+def _(it, a, info):
+    v = a[0]; dst = parse_ty(info.get('self_ty') or ''); tr = parse_ty(info.get('trait') or '')
+    src = tr[3][0] if tr[0] == 'path' and tr[3] else None
+    dn = dst[1] if dst[0] == 'path' else None
+    sn = src[1] if src and src[0] == 'path' else None
+    if dn == 'Option' and not (isinstance(v, Enum) and v.ty == 'Option' and sn == 'Option'):
+        if src is not None and src[0] == 'ref' and src[2][0] == 'path' and src[2][1] == 'Option':      # From<&Option<T>> for Option<&T>
+            o = deref(v); return some(Ref(o.f, 0)) if o.variant == 'Some' else none()
+        return some(v)
+    if dn in ('Rc', 'Arc'):
+        inner = dst[3][0] if dst[3] else None
+        if inner and inner[0] == 'path' and inner[1] == 'str': return RRc(Str(as_chars(v)))
+        if inner and inner[0] == 'slice': return RRc(RVec(list(as_items(v))))
+        return RRc(v)
+    if dn == 'Box':
+        inner = dst[3][0] if dst[3] else None
+        if inner and inner[0] == 'path' and inner[1] == 'str': return RBox(Str(as_chars(v)))
+        if inner and inner[0] == 'slice': return RBox(v if isinstance(v, RVec) else RVec([deep_copy(x) for x in as_items(v)]))
+        if inner and inner[0] == 'opaque' and inner[1].startswith('dyn '):
+            pv = deref(v)
+            if isinstance(pv, (Str, RString)): return RBox(Opaque('ioerror', (None, RString(pv.ch))))      # Box<dyn Error> from a message
+            return v if isinstance(v, RBox) else RBox(v)
+        return v if isinstance(v, RBox) and sn == 'Box' else RBox(v)
+    if dn == 'Cow':
+        pv = deref(v)
+        if isinstance(pv, Enum) and pv.ty == 'Cow': return pv
+        owned = isinstance(v, (RString, RVec))
+        return Enum('Cow', 'Owned' if owned else 'Borrowed', 1 if owned else 0, [v if owned else (Str(pv.ch) if isinstance(pv, (Str, RString)) else v)])
+    if dn == 'String':
+        pv = deref(v)
+        if isinstance(pv, Enum) and pv.ty == 'Cow': return RString(as_chars(pv.f[0]))
+        if isinstance(pv, (Str, RString)): return v if isinstance(v, RString) else RString(pv.ch)
+        if isinstance(pv, RBox): return RString(as_chars(pv))
+        if isinstance(pv, int) or is_sym(pv): return RString([pv])
+    if dn in ('Vec', 'VecDeque', 'BinaryHeap'):
+        pv = deref(v)
+        if isinstance(pv, (Str, RString)): return RVec(utf8_bytes(it, list(pv.ch)))
+        if isinstance(pv, Enum) and pv.ty == 'Cow': pv = deref(pv.f[0])
+        if isinstance(v, RVec): return v
+        if isinstance(pv, RBox): pv = pv.cell[0]
+        return RVec([deep_copy(x) for x in as_items(pv)]) if not isinstance(v, Agg) else RVec(list(v.f))
+    if dn in ('HashSet', 'BTreeSet'):
+        s = RBSet() if dn == 'BTreeSet' else RSet()
+        for x in as_items(v): sinsert(it, s, x)
+        return s
+    if dn in ('HashMap', 'BTreeMap'):
+        m = RBMap() if dn == 'BTreeMap' else RMap()
+        for x in as_items(v): minsert(it, m, x.f[0], x.f[1])
+        return m
+    if dn in ('f64', 'f32') and is_scalar(v):
+        if isinstance(v, (int, bool)) and not isinstance(v, float): return float(v)
+        if is_sym(v) and z3.is_bv(v):
+            sinfo = INT_TYS.get(sn, (v.size(), False))
+            return z3.fpSignedToFP(RNE, v, z3.Float64()) if sinfo[1] else z3.fpUnsignedToFP(RNE, v, z3.Float64())
+        return v
+    if dn in INT_TYS and is_scalar(v):
+        if isinstance(v, bool): return int(v)
+        if is_sym(v):
+            if z3.is_bool(v): return z3.If(v, z3.BitVecVal(1, INT_TYS[dn][0]), z3.BitVecVal(0, INT_TYS[dn][0]))
+            db = INT_TYS[dn][0]; sb = v.size(); sinfo = INT_TYS.get(sn, (sb, False))
+            return v if db == sb else (z3.SignExt(db - sb, v) if sinfo[1] else z3.ZeroExt(db - sb, v)) if db > sb else z3.Extract(db - 1, 0, v)
+        return v
+    if dn == 'char' and is_scalar(v):
+        return z3.ZeroExt(24, v) if is_sym(v) and v.size() == 8 else v
+    return _old_from(it, a, info)
